@@ -722,46 +722,15 @@ func runC13(c *Ctx) {
 	// file-opening primitives in its closure are os.WriteFile / os.Create, or os.OpenFile with O_TRUNC. A write
 	// that keeps the old tail of a longer file leaves a manifest that no longer parses (or a stale entry).
 	{
-		nImpl, nOpen := 0, 0
+		var impls []*ssa.Function
 		for _, f := range c.P.RepoFunctions() {
 			if c.isTestFunc(f) || f.Name() != "WriteOrCreateFiles" || f.Signature.Recv() == nil || f.Blocks == nil {
 				continue
 			}
-			nImpl++
-			clo := c.reachable([]*ssa.Function{f}, nil)
-			for g := range clo {
-				for _, call := range callsIn(g, func(call ssa.CallInstruction) bool {
-					cal := call.Common().StaticCallee()
-					return cal != nil && cal.Pkg != nil && cal.Pkg.Pkg.Path() == "os" && (cal.Name() == "OpenFile" || cal.Name() == "WriteFile" || cal.Name() == "Create")
-				}) {
-					nOpen++
-					cal := call.Common().StaticCallee()
-					if cal.Name() != "OpenFile" {
-						c.S.OK("R5", load.FuncName(f)+"→"+load.FuncName(g)+":os."+cal.Name(), c.pos(call.Pos()), "replaces the file's contents", false)
-						continue
-					}
-					k, isK := call.Common().Args[1].(*ssa.Const)
-					okFlags := false
-					detail := "the open flags are not a constant"
-					if isK && k.Value != nil {
-						fl := k.Int64()
-						oWronly, ok1 := c.extConstInt("os", "O_WRONLY")
-						oRdwr, ok2 := c.extConstInt("os", "O_RDWR")
-						oTrunc, ok3 := c.extConstInt("os", "O_TRUNC")
-						oAppend, ok4 := c.extConstInt("os", "O_APPEND")
-						if ok1 && ok2 && ok3 && ok4 {
-							writes := fl&(oWronly|oRdwr) != 0
-							okFlags = !writes || (fl&oTrunc != 0 && fl&oAppend == 0)
-							detail = fmt.Sprintf("opened for writing with flags %#x: no O_TRUNC (or O_APPEND): bytes of a longer previous version survive behind the new contents", fl)
-						} else {
-							detail = "os.O_* constants not found"
-						}
-					}
-					c.S.Check(okFlags, "R5", load.FuncName(f)+"→"+load.FuncName(g)+":os.OpenFile", c.pos(call.Pos()), "opened with O_TRUNC", detail)
-				}
-			}
+			impls = append(impls, f)
 		}
-		c.S.Floor("R5", "in-repo implementations of ChangeOps.WriteOrCreateFiles", 1, nImpl)
+		nOpen := c.wholeFileWrites("R5", impls)
+		c.S.Floor("R5", "in-repo implementations of ChangeOps.WriteOrCreateFiles", 1, len(impls))
 		c.S.Floor("R5", "file-opening calls in their closures", 1, nOpen)
 	}
 
